@@ -3,6 +3,7 @@ import json, itertools
 from vlib import *
 
 PROPS = "theories/Props/C17.v"
+SHAPES_BIG = [(300,300,1,1),(42,41,40,1),(17,16,17,16),(1,70000,1,1)]
 SHAPES = [(1,1,1,1),(1,1,1,2),(1,1,2,1),(1,2,1,1),(2,1,1,1),(1,2,3,1),(3,2,1,1),(1,1,3,2),
           (2,2,2,2),(1,2,3,4),(4,3,2,1),(2,3,1,2),(3,1,2,2),(2,1,3,1),(3,3,1,2),(1,3,2,3),
           (2,3,4,5),(5,4,3,2),(3,5,2,4),(4,2,5,3),(2,2,3,3),(3,3,2,2),(3,2,3,2),(2,3,2,3),
@@ -62,6 +63,27 @@ def gen_cases(run):
                     ops[-1] = ops[-1] + (9,)
                 cases.append(Case("grid", [kind, W, H, D, C], ops, {"kind": "oob"}))
                 dist["oob_cases"] += 1
+    # LARGE grids (more than 65 536 cells): stores at random points and at points whose flattened index differs by 65 536 (and by
+    # 256) from an earlier one under the storage's nesting order, then loads of everything that was stored
+    BIG = {1: (1, 70000, 1, 1), 2: (300, 300, 1, 1), 3: (42, 41, 40, 1), 4: (17, 16, 17, 16)}
+    for kind in ((1, 2, 3, 4) if run.thorough else (2, rng.choice([1, 3, 4]))):
+        W, H, D, C = BIG[kind]
+        def unflat(f):
+            if kind == 1: return (f % H, 0, 0, 0)
+            if kind == 2: return (f % W, (f // W) % H, 0, 0)
+            if kind == 3: z = f % W; x = (f // W) % H; y = (f // (W * H)) % D; return (x, y, z, 0)
+            t = f % W; z = (f // W) % H; x = (f // (W * H)) % D; y = (f // (W * H * D)) % C; return (x, y, z, t)
+        total = {1: H, 2: W * H, 3: W * H * D, 4: W * H * D * C}[kind]
+        pts = []
+        for _ in range(10):
+            f = rng.randrange(0, total)
+            for df in (0, 65536, -65536, 256, 65536 * 2 - total):
+                g2 = f + df
+                if 0 <= g2 < total: pts.append(unflat(g2))
+        pts = list(dict.fromkeys(pts))
+        ops = [(0, *p, 1000 + i) for i, p in enumerate(pts)] + [(1, *p) for p in pts]
+        cases.append(Case("grid", [kind, W, H, D, C], ops, {"kind": "large"}))
+        dist["large_grid_cases"] = dist.get("large_grid_cases", 0) + 1
     for c in cases:
         dist["kinds"][c.prefix[0]] += 1
         dist["ops"] += len(c.ops)
